@@ -222,9 +222,16 @@ def write_replay(prop, v):
     return path
 
 
+def _quiet_unraisable(args):
+    """Programs of the explored space may raise while a dropped generator is finalised (a `raise` in a
+    finally block, a generator that ignores GeneratorExit): CPython reports these through this hook. They
+    are part of the reference behaviour too, so nothing is printed."""
+
+
 def main(mod, tier, seed, jobs, only=None):
     prop = mod.PROP
     t0 = time.time()
+    sys.unraisablehook = _quiet_unraisable  # inherited by the forked workers
     units = list(mod.units(tier))
     if only is not None:
         units = [u for u in units if only in repr(u)]
